@@ -2,7 +2,7 @@ prop(
     "C01",
     pkg="c01",
     title="A file pint passes in strict mode is loadable by Prometheus",
-    technique="property-based testing (rapid): one-directional differential against Prometheus' own rulefmt.Parse on identical bytes",
+    technique="property-based testing (rapid) + native coverage-guided fuzzing (go test -fuzz, thorough tier): one-directional differential against Prometheus' own rulefmt.Parse on identical bytes",
     level="exploration",
     design_ref="DESIGN.md 2/C01",
     stages=[
